@@ -596,6 +596,22 @@ impl Check for C07 {
                 _ => Op::S(Stim::Flip(rng.below(0xF0) as u8, rng.below(8) as u8)),
             });
         }
+        if rng.chance(1, 3) {
+            // an 'armed' board somewhere in the history: an analog input at a non-zero voltage, the DAC
+            // of its comparator above or below it, and the interrupt control register selecting a
+            // source with a polarity (what a reset does to the outputs must not raise the interrupt)
+            let at = rng.usize(ops.len() + 1);
+            let which = rng.below(3) as u8;
+            let volt = (1 + rng.below(250)) as f32 / 100.0;
+            let dac_addr = if which == 1 { 0xF0 } else { 0xF1 };
+            let dac = if rng.bool() { 255 - rng.below(4) as u8 } else { rng.below(20) as u8 };
+            let src = if rng.chance(2, 3) { if which == 1 { 4 } else { 5 } } else { rng.below(8) as u8 };
+            let icr = 0xC0 | 0x20 | ((rng.bool() as u8) << 3) | src;
+            let bundle = [Op::S(Stim::Volt(which, volt.to_bits())), Op::S(Stim::BusWrite(dac_addr, dac)), Op::S(Stim::BusWrite(0xF2, icr))];
+            for (k, o) in bundle.iter().enumerate() {
+                ops.insert(at + k, o.clone());
+            }
+        }
         Scn { ops, follow: follow_up(rng), follow_inputs: [rng.u8(), rng.u8(), rng.u8(), rng.u8()], only: None, lockstep: None }
     }
     fn execute(&self, scn: &Scn, ctx: &mut Ctx) -> Result<(), Violation> {
